@@ -15,6 +15,7 @@ type Rec struct {
 	K string            `json:"k"`
 	N map[string]uint64 `json:"n,omitempty"`
 	B map[string]string `json:"b,omitempty"`
+	T map[string]string `json:"t,omitempty"`
 	S map[string]*Rec   `json:"s,omitempty"`
 	L map[string][]*Rec `json:"l,omitempty"`
 }
@@ -42,6 +43,23 @@ func (r *Rec) SetB(name string, b []byte) *Rec {
 	}
 	r.B[name] = hex.EncodeToString(b)
 	return r
+}
+
+// SetT sets a text field. Names starting with "_" (in any map) are builder hints: ignored by Diff and by the
+// reference encoder.
+func (r *Rec) SetT(name, v string) *Rec {
+	if r.T == nil {
+		r.T = map[string]string{}
+	}
+	r.T[name] = v
+	return r
+}
+
+func (r *Rec) Text(name string) string {
+	if r == nil {
+		return ""
+	}
+	return r.T[name]
 }
 
 func (r *Rec) SetS(name string, s *Rec) *Rec {
@@ -170,6 +188,9 @@ func (r *Rec) Normalize() *Rec {
 	if len(r.B) == 0 {
 		r.B = nil
 	}
+	if len(r.T) == 0 {
+		r.T = nil
+	}
 	for k, s := range r.S {
 		if s == nil {
 			delete(r.S, k)
@@ -195,21 +216,45 @@ func (r *Rec) Normalize() *Rec {
 	return r
 }
 
+// DiffEntry is one differing field.
+type DiffEntry struct{ Path, Detail string }
+
 // Diff returns "" if a and b are equal after normalisation, else the path of
 // the first difference (stable order) and a short description.
 func Diff(a, b *Rec) (path string, detail string) {
-	return diff("", a, b)
-}
-
-func diff(p string, a, b *Rec) (string, string) {
-	if a == nil && b == nil {
+	d := DiffAll(a, b, 1)
+	if len(d) == 0 {
 		return "", ""
 	}
+	return d[0].Path, d[0].Detail
+}
+
+// DiffAll returns up to max differing fields (stable order), so that one known difference cannot hide another.
+func DiffAll(a, b *Rec, max int) []DiffEntry {
+	var out []DiffEntry
+	diff("", a, b, &out, max)
+	return out
+}
+
+func diff(p string, a, b *Rec, out *[]DiffEntry, max int) {
+	add := func(path, detail string) {
+		if len(*out) < max {
+			if path == "" {
+				path = "."
+			}
+			*out = append(*out, DiffEntry{path, detail})
+		}
+	}
+	if len(*out) >= max || (a == nil && b == nil) {
+		return
+	}
 	if a == nil || b == nil {
-		return p, fmt.Sprintf("present=%v vs present=%v", a != nil, b != nil)
+		add(p, fmt.Sprintf("present=%v vs present=%v", a != nil, b != nil))
+		return
 	}
 	if a.K != b.K {
-		return p + ".k", fmt.Sprintf("kind %q vs %q", a.K, b.K)
+		add(p+".k", fmt.Sprintf("kind %q vs %q", a.K, b.K))
+		return
 	}
 	keys := map[string]bool{}
 	for k := range a.N {
@@ -219,10 +264,11 @@ func diff(p string, a, b *Rec) (string, string) {
 		keys[k] = true
 	}
 	for _, k := range sorted(keys) {
-		av, aok := a.N[k]
-		bv, bok := b.N[k]
-		if aok != bok || av != bv {
-			return p + "." + k, fmt.Sprintf("%d(%v) vs %d(%v)", av, aok, bv, bok)
+		if k[0] == '_' {
+			continue
+		}
+		if av, bv := a.N[k], b.N[k]; av != bv { // an absent number equals zero
+			add(p+"."+k, fmt.Sprintf("%d (%#x) vs %d (%#x)", av, av, bv, bv))
 		}
 	}
 	keys = map[string]bool{}
@@ -233,10 +279,26 @@ func diff(p string, a, b *Rec) (string, string) {
 		keys[k] = true
 	}
 	for _, k := range sorted(keys) {
-		av, aok := a.B[k]
-		bv, bok := b.B[k]
-		if aok != bok || av != bv {
-			return p + "." + k, fmt.Sprintf("%s(%v) vs %s(%v)", trunc(av), aok, trunc(bv), bok)
+		if k[0] == '_' {
+			continue
+		}
+		if av, bv := a.B[k], b.B[k]; av != bv { // absent bytes equal empty bytes
+			add(p+"."+k, fmt.Sprintf("%s vs %s", trunc(av), trunc(bv)))
+		}
+	}
+	keys = map[string]bool{}
+	for k := range a.T {
+		keys[k] = true
+	}
+	for k := range b.T {
+		keys[k] = true
+	}
+	for _, k := range sorted(keys) {
+		if k[0] == '_' {
+			continue
+		}
+		if a.T[k] != b.T[k] {
+			add(p+"."+k, fmt.Sprintf("%q vs %q", a.T[k], b.T[k]))
 		}
 	}
 	keys = map[string]bool{}
@@ -247,9 +309,7 @@ func diff(p string, a, b *Rec) (string, string) {
 		keys[k] = true
 	}
 	for _, k := range sorted(keys) {
-		if pp, d := diff(p+"."+k, a.S[k], b.S[k]); pp != "" || d != "" {
-			return pp, d
-		}
+		diff(p+"."+k, a.S[k], b.S[k], out, max)
 	}
 	keys = map[string]bool{}
 	for k, l := range a.L {
@@ -265,15 +325,13 @@ func diff(p string, a, b *Rec) (string, string) {
 	for _, k := range sorted(keys) {
 		al, bl := a.L[k], b.L[k]
 		if len(al) != len(bl) {
-			return p + "." + k + ".len", fmt.Sprintf("%d vs %d", len(al), len(bl))
+			add(p+"."+k+".len", fmt.Sprintf("%d vs %d elements", len(al), len(bl)))
+			continue
 		}
 		for i := range al {
-			if pp, d := diff(fmt.Sprintf("%s.%s[%d]", p, k, i), al[i], bl[i]); pp != "" || d != "" {
-				return pp, d
-			}
+			diff(fmt.Sprintf("%s.%s[%d]", p, k, i), al[i], bl[i], out, max)
 		}
 	}
-	return "", ""
 }
 
 func trunc(s string) string {
